@@ -1,0 +1,10 @@
+//go:build !verif
+// +build !verif
+
+package moss
+
+// Verification hooks (see the `verif` build tag); no-ops in normal builds.
+
+func verifGate(name string, m *collection) {}
+
+func verifOnRemove(path string) {}
